@@ -45,6 +45,7 @@ var validRequests = []string{
 	`query($v: !){str}`, `query($v: [!]){str}`, `query($v: [!]!){str}`, `{... on ! {str}}`, `{...F} fragment F on ! {str}`, `{str @!}`, `{str @[]}`, `{... on [] {str}}`, `query($v: []){str}`,
 	`{stray{items sub{items} __typename ...on LA{items}} strays{items(first: 1) __typename sub{__typename}}}`, `{obj{stray{items}} strays{...F}} fragment F on Lister{items sub{items}}`,
 	`{col(c: RED) big(x: 1, y: 1.5, t: "2020-01-02T03:04:05Z", id: 7) fail(s: "fail") when}`,
+	`{ginp2(in: {name: "a"})}`, `{ginp2(in: {ghost: 1})}`, `{ginp2(in: {lost: [1, 2], name: "n"}, ins: [{ghost: null}, {deep: {ghost: 2}}])}`, `query Q($i: GIn2){ginp2(in: $i)}`,
 	`{pairs{str num sub{str num}}}`, `{pairs{__typename num str} obj{pairs{sub{sub{str}} str}}}`, `{pairs{...P}} fragment P on Pair{num sub{num}}`,
 }
 
